@@ -55,6 +55,13 @@ pub fn compile_case(v: &Value) -> Value {
                 let mut d = serde_json::Map::new();
                 for s in dumps.iter() {
                     let text = match s.as_str() {
+                        "core_json" => serde_json::to_string(&c.core).unwrap(),
+                        "cst" => parser::debug_tree(&c.green_node),
+                        "ast" => c.ast.to_pretty(120),
+                        "hir" => {
+                            let ctx = compiler::pprint::hir_pprint::HirPrintCtx::new(&c.hir_table);
+                            c.hir.to_pretty(&ctx, 120)
+                        }
                         "tast" => c.tast.to_pretty(&c.genv, 120),
                         "core" => c.core.to_pretty(&c.genv, 120),
                         "mono" => c.mono.to_pretty(&c.monoenv, 120),
